@@ -44,6 +44,23 @@ def recDelta (S D : String) (out : List SubMsg) : ExecMsg → Nat
   | .recover .. => trSum S D out
   | _ => 0
 
+/-- staked asset newly forwarded toward the staker by a response (a recovery re-sends, it does not add) -/
+def fwdDelta (S D : String) (out : List SubMsg) : ExecMsg → Nat
+  | .recover .. => 0
+  | _ => trSum S D out
+
+/-- expected unbonding amount set aside by a batch submission -/
+def setAsideDelta (s s' : CState) : ExecMsg → Nat
+  | .submitBatch => ((s'.batches.find? s.pendingId).bind (·.expected)).getD 0
+  | _ => 0
+
+/-- N1 bookkeeping of one handler: the staked total moves only together with a forward toward the
+staker, a set-aside at submission or the sweep; ResumeContract overwrites it -/
+def NatSpec (s s' : CState) (out : List SubMsg) : ExecMsg → Prop
+  | .resumeContract n _ _ => s'.st.totalNative = n ∧ trSum s.config.native.staker s.config.proto.ibcDenom out = 0
+  | m => (s'.st.totalNative : Int) + setAsideDelta s s' m + sweptDelta s m
+          = s.st.totalNative + fwdDelta s.config.native.staker s.config.proto.ibcDenom out m
+
 structure ExecFactsD (s s' : CState) (me : String) (funds : List Coin) (msg : ExecMsg) (out : List SubMsg) : Prop where
   dn : s'.config.proto.ibcDenom = s.config.proto.ibcDenom
   staker : s'.config.native.staker = s.config.native.staker
@@ -52,6 +69,17 @@ structure ExecFactsD (s s' : CState) (me : String) (funds : List Coin) (msg : Ex
   loc : locC s.config.native.staker s.config.proto.ibcDenom s'
           + recDelta s.config.native.staker s.config.proto.ibcDenom out msg
         = locC s.config.native.staker s.config.proto.ibcDenom s
+  nat : NatSpec s s' out msg
+
+theorem trSum_oracle (S D contract : String) (orc : List SubMsg)
+    (h : ∀ x ∈ orc, ∃ o p, x = plain (.wasmExec contract o p)) : trSum S D orc = 0 := by
+  induction orc with
+  | nil => rfl
+  | cons m r ih =>
+    obtain ⟨o, p, hm⟩ := h m (by simp)
+    have := ih (fun x hx => h x (List.mem_cons_of_mem _ hx))
+    subst hm
+    simp [trSum, trEff, plain, this]
 
 theorem owedD_congr {s s' : CState} (hb : s'.batches = s.batches) (hf : s'.st.totalFees = s.st.totalFees)
     (hi : s'.inflight = s.inflight) (hd : s'.config.proto.ibcDenom = s.config.proto.ibcDenom) : owedD s' = owedD s := by
@@ -66,9 +94,9 @@ theorem execFactsD_frame {s s' : CState} {me : String} {funds : List Coin} {msg 
     (hd : s'.config.proto.ibcDenom = s.config.proto.ibcDenom) (hs : s'.config.native.staker = s.config.native.staker)
     (hbal : balSum me s.config.proto.ibcDenom out = 0) (hc : consumedD s.config.proto.ibcDenom funds msg = 0)
     (hsw : sweptDelta s msg = 0) (hp : paidDelta me s.config.proto.ibcDenom out msg = 0)
-    (hr : recDelta s.config.native.staker s.config.proto.ibcDenom out msg = 0) :
+    (hr : recDelta s.config.native.staker s.config.proto.ibcDenom out msg = 0) (hn : NatSpec s s' out msg) :
     ExecFactsD s s' me funds msg out := by
-  refine ⟨hd, hs, ?_, ?_⟩
+  refine ⟨hd, hs, ?_, ?_, hn⟩
   · rw [owedD_congr hb hf hi hd, hbal, hc, hsw, hp]; omega
   · rw [locC_congr hi, hr]; omega
 
@@ -89,9 +117,18 @@ theorem factsD_stake {s s' : CState} {env : Env} {info : Info} {mt : Option Stri
     rcases sweep_eff hsw with ⟨h1, h2, h⟩ | ⟨hn, h⟩
     · subst h; simp [h1, h2]
     · subst h; simp [hn]
+  have hto := trSum_oracle s.config.native.staker s.config.proto.ibcDenom env.contract orc horc
+  have hnat : (st.totalNative : Int) + sweptDelta s (.liquidStake mt tn ex) = s.st.totalNative := by
+    simp only [sweptDelta]
+    rcases sweep_eff hsw with ⟨h1, h2, h⟩ | ⟨hn, h⟩
+    · subst h; simp [h1, h2]
+    · subst h; simp [hn]
   rcases hcase with ⟨_, hs', hout⟩ | ⟨_, hw2, hs', hout⟩
   · subst hs' hout
-    refine ⟨rfl, rfl, ?_, ?_⟩
+    refine ⟨rfl, rfl, ?_, ?_, ?_⟩
+    rotate_left 2
+    · simp only [NatSpec, setAsideDelta, fwdDelta, trSum_append, trSum, trEff, plain, transferSub, hto, and_self, ↓reduceIte]
+      omega
     · have hb : balSum self s.config.proto.ibcDenom ([plain (.mint env.contract s.config.lstDenom m env.contract)] ++ orc
           ++ [transferSub s env id1 s.config.native.staker ⟨s.config.proto.ibcDenom, pay⟩]
           ++ [plain (.msgSend env.contract (mt.getD info.sender) [⟨s.config.lstDenom, m⟩])]) = -(pay : Int) := by
@@ -101,7 +138,11 @@ theorem factsD_stake {s s' : CState} {env : Env} {info : Info} {mt : Option Stri
       omega
     · simp [locC, recDelta]
   · subst hs' hout
-    refine ⟨rfl, rfl, ?_, ?_⟩
+    refine ⟨rfl, rfl, ?_, ?_, ?_⟩
+    rotate_left 2
+    · simp only [NatSpec, setAsideDelta, fwdDelta, trSum_append, trSum, trEff, plain, transferSub, hto, hD', false_and,
+        and_self, ↓reduceIte]
+      omega
     · have hb : balSum self s.config.proto.ibcDenom ([plain (.mint env.contract s.config.lstDenom m env.contract)] ++ orc
           ++ [transferSub s env id1 s.config.native.staker ⟨s.config.proto.ibcDenom, pay⟩]
           ++ [transferSub s env (id1 + 1) (mt.getD info.sender) ⟨s.config.lstDenom, m⟩]) = -(pay : Int) := by
@@ -123,7 +164,7 @@ theorem factsD_unstake {s s' : CState} {env : Env} {info : Info} {out : List Sub
   have hsum := AMap.sumBy_insert_old recvAmt hi.sortedB (grown b a (findReq s.reqs s.pendingId info.sender).isNone) b hb
   have h0 : recvAmt b = 0 := by simp [recvAmt, hst]
   have h1 : recvAmt (grown b a (findReq s.reqs s.pendingId info.sender).isNone) = 0 := by simp [recvAmt, grown, hst]
-  refine ⟨rfl, rfl, ?_, ?_⟩
+  refine ⟨rfl, rfl, ?_, ?_, by simp [NatSpec, setAsideDelta, sweptDelta, fwdDelta, trSum]⟩
   · simp only [owedD, recvSum, refundableSum, balSum, consumedD, sweptDelta, paidDelta]
     omega
   · simp [locC, recDelta]
@@ -134,8 +175,18 @@ theorem factsD_submit {s s' : CState} {env : Env} {info : Info} {out : List SubM
     ExecFactsD s s' self info.funds .submitBatch out := by
   have hD' : ¬ s.config.lstDenom = s.config.proto.ibcDenom := fun e => hc.distinct e.symm
   simp only [execute] at hx
-  obtain ⟨batch, unbond, orc, _, hb, _, _, _, _, horc, hs', hout⟩ := submitBatch_eff hx
+  obtain ⟨batch, unbond, orc, _, hb, _, _, hL, hu, horc, hs', hout⟩ := submitBatch_eff hx
   obtain ⟨ho1, _⟩ := sums_oracle_w self s.config.proto.ibcDenom env.contract orc horc
+  have hto := trSum_oracle s.config.native.staker s.config.proto.ibcDenom env.contract orc horc
+  have hule : unbond ≤ s.st.totalNative := by
+    unfold computeUnbond at hu
+    split at hu
+    · cases hu; omega
+    · simp only [mulRatio_ok] at hu
+      obtain ⟨_, _, hu⟩ := hu; subst hu
+      apply Nat.div_le_of_le_mul
+      rw [Nat.mul_comm s.st.totalLst]
+      exact Nat.mul_le_mul_left _ hL
   have hid : batch.id = s.pendingId := hi.idKey _ _ hb
   have hst := (hi.pend batch hb).1
   subst hs' hout
@@ -157,7 +208,11 @@ theorem factsD_submit {s s' : CState} {env : Env} {info : Info} {out : List SubM
   have e1 : recvAmt (Batch.new (batch.id + 1) 0 (env.seconds + s.config.batchPeriod)) = 0 := by simp [recvAmt, Batch.new]
   have e2 : recvAmt (({ batch with expected := some unbond }).updateStatus .submitted
       (some (env.seconds + s.config.native.unbondingPeriod))) = 0 := by simp [recvAmt, Batch.updateStatus]
-  refine ⟨rfl, rfl, ?_, ?_⟩
+  refine ⟨rfl, rfl, ?_, ?_, ?_⟩
+  rotate_left 2
+  · simp only [NatSpec, setAsideDelta, sweptDelta, fwdDelta, trSum_append, trSum, trEff, plain, hto, ← hid,
+      AMap.find?_insert_self, Option.bind_some, Batch.updateStatus, Option.getD_some, checkedSub, hule, ↓reduceIte]
+    omega
   · have hbal : balSum self s.config.proto.ibcDenom
         ([plain (.burn env.contract s.config.lstDenom batch.total env.contract)] ++ orc) = 0 := by
       simp only [balSum_append, balSum, balEff, plain, ho1, hD', and_false, ↓reduceIte]; omega
@@ -171,8 +226,9 @@ theorem factsD_withdraw {s s' : CState} {env : Env} {info : Info} {b : Nat} {out
     ExecFactsD s s' self info.funds (.withdraw b) out := by
   simp only [execute] at hx
   obtain ⟨batch, recv, req, orc, _, _, _, _, _, _, horc, hs', hout⟩ := withdraw_eff hx
+  have hto := trSum_oracle s.config.native.staker s.config.proto.ibcDenom env.contract orc horc
   subst hs' hout
-  refine ⟨rfl, rfl, ?_, ?_⟩
+  refine ⟨rfl, rfl, ?_, ?_, by simp [NatSpec, setAsideDelta, sweptDelta, fwdDelta, trSum_append, trSum, trEff, plain, hto]⟩
   · simp only [owedD, recvSum, refundableSum, consumedD, sweptDelta, paidDelta]
     omega
   · simp [locC, recDelta]
@@ -184,8 +240,15 @@ theorem factsD_rewards {s s' : CState} {env : Env} {info : Info} {out : List Sub
   simp only [execute] at hx
   obtain ⟨reward, fee, id, orc, _, _, _, hcoin, _, hle, _, horc, hs', hout⟩ := receiveRewards_eff hx
   obtain ⟨ho1, _⟩ := sums_oracle_w self s.config.proto.ibcDenom env.contract orc horc
+  have hto := trSum_oracle s.config.native.staker s.config.proto.ibcDenom env.contract orc horc
+  have htt : trSum s.config.native.staker s.config.proto.ibcDenom (treasuryMsgs s.config fee) = 0 := by
+    unfold treasuryMsgs; split <;> simp [trSum, trEff, plain]
   subst hs' hout
-  refine ⟨rfl, rfl, ?_, ?_⟩
+  refine ⟨rfl, rfl, ?_, ?_, ?_⟩
+  rotate_left 2
+  · simp only [NatSpec, setAsideDelta, sweptDelta, fwdDelta, trSum_append, trSum, trEff, transferSub, hto, htt, and_self,
+      ↓reduceIte]
+    omega
   · have hb : balSum self s.config.proto.ibcDenom (orc ++ [transferSub s env id s.config.native.staker
           ⟨s.config.proto.ibcDenom, reward.amount - fee⟩] ++ treasuryMsgs s.config fee)
         = -((reward.amount - fee : Nat) : Int) - (if s.config.feeCfg.treasury.isNone then 0 else (fee : Int)) := by
@@ -215,7 +278,7 @@ theorem factsD_receive {s s' : CState} {env : Env} {info : Info} {b : Nat} {out 
   have e0 : recvAmt batch = 0 := by simp [recvAmt, hst]
   have e1 : recvAmt ({ batch with received := some coin.amount, status := .received, nextAction := none }) = coin.amount := by
     simp [recvAmt]
-  refine ⟨rfl, rfl, ?_, ?_⟩
+  refine ⟨rfl, rfl, ?_, ?_, by simp [NatSpec, setAsideDelta, sweptDelta, fwdDelta, trSum]⟩
   · simp only [owedD, recvSum, refundableSum, balSum, consumedD, hcoin, Option.map_some, Option.getD_some, sweptDelta, paidDelta]
     omega
   · simp [locC, recDelta]
@@ -230,7 +293,7 @@ theorem factsD_recover {s s' : CState} {env : Env} {info : Info} {pg : Option Bo
   rw [← refundedAmt_eq_refW] at h1
   have h2 := hsum (fun d r => d == s.config.proto.ibcDenom && r == s.config.native.staker)
   subst hout
-  refine ⟨by rw [hcfg], by rw [hcfg], ?_, ?_⟩
+  refine ⟨by rw [hcfg], by rw [hcfg], ?_, ?_, by simp [NatSpec, setAsideDelta, sweptDelta, fwdDelta, hst]⟩
   · have hbal : balSum self s.config.proto.ibcDenom [transferSub s env id recv ⟨denom, total⟩]
         = if denom = s.config.proto.ibcDenom then -(total : Int) else 0 := by
       simp [balSum, balEff, transferSub]
@@ -266,23 +329,23 @@ theorem execute_factsD {s s' : CState} {env : Env} {info : Info} {m : ExecMsg} {
   case addValidator v =>
     simp only [execute] at hx
     obtain ⟨ho, _, _, _, hs'⟩ := addValidator_eff hx; subst hs' ho
-    exact execFactsD_frame rfl rfl rfl rfl rfl rfl rfl rfl rfl rfl
+    exact execFactsD_frame rfl rfl rfl rfl rfl rfl rfl rfl rfl rfl (by simp [NatSpec, setAsideDelta, sweptDelta, fwdDelta, trSum, setOwn])
   case removeValidator v =>
     simp only [execute] at hx
     obtain ⟨ho, _, _, hs'⟩ := removeValidator_eff hx; subst hs' ho
-    exact execFactsD_frame rfl rfl rfl rfl rfl rfl rfl rfl rfl rfl
+    exact execFactsD_frame rfl rfl rfl rfl rfl rfl rfl rfl rfl rfl (by simp [NatSpec, setAsideDelta, sweptDelta, fwdDelta, trSum, setOwn])
   case transferOwnership n =>
     simp only [execute] at hx
     obtain ⟨ho, o, _, hs'⟩ := transferOwnership_eff hx; subst hs' ho
-    exact execFactsD_frame rfl rfl rfl rfl rfl rfl rfl rfl rfl rfl
+    exact execFactsD_frame rfl rfl rfl rfl rfl rfl rfl rfl rfl rfl (by simp [NatSpec, setAsideDelta, sweptDelta, fwdDelta, trSum, setOwn])
   case acceptOwnership =>
     simp only [execute] at hx
     obtain ⟨ho, o, _, hs'⟩ := acceptOwnership_eff hx; subst hs' ho
-    exact execFactsD_frame rfl rfl rfl rfl rfl rfl rfl rfl rfl rfl
+    exact execFactsD_frame rfl rfl rfl rfl rfl rfl rfl rfl rfl rfl (by simp [NatSpec, setAsideDelta, sweptDelta, fwdDelta, trSum, setOwn])
   case revokeOwnershipTransfer =>
     simp only [execute] at hx
     obtain ⟨ho, o, _, hs'⟩ := revokeOwnership_eff hx; subst hs' ho
-    exact execFactsD_frame rfl rfl rfl rfl rfl rfl rfl rfl rfl rfl
+    exact execFactsD_frame rfl rfl rfl rfl rfl rfl rfl rfl rfl rfl (by simp [NatSpec, setAsideDelta, sweptDelta, fwdDelta, trSum, setOwn])
   case updateConfig n p f mo bp =>
     simp only [execute] at hx
     obtain ⟨ho, _, nat', proto', fee', mons', bp', hn, hp, _, _, _, hs'⟩ := updateConfig_eff hx
@@ -307,13 +370,13 @@ theorem execute_factsD {s s' : CState} {env : Env} {info : Info} {m : ExecMsg} {
         subst hn'
         simp only [validateAddress_eq hstk]
         exact hok.2 c hc'
-    exact execFactsD_frame rfl rfl rfl hden hstk rfl rfl rfl rfl rfl
+    exact execFactsD_frame rfl rfl rfl hden hstk rfl rfl rfl rfl rfl (by simp [NatSpec, setAsideDelta, sweptDelta, fwdDelta, trSum])
   case circuitBreaker =>
     simp only [execute] at hx
     unfold circuitBreaker at hx
     simp only [bind_ok, pure_ok] at hx
     obtain ⟨_, _, hx⟩ := hx; cases hx
-    exact execFactsD_frame rfl rfl rfl rfl rfl rfl rfl rfl rfl rfl
+    exact execFactsD_frame rfl rfl rfl rfl rfl rfl rfl rfl rfl rfl (by simp [NatSpec, setAsideDelta, sweptDelta, fwdDelta, trSum, setOwn])
   case resumeContract n l r =>
     simp only [execute] at hx
     unfold resumeContract at hx
@@ -321,6 +384,7 @@ theorem execute_factsD {s s' : CState} {env : Env} {info : Info} {m : ExecMsg} {
     obtain ⟨_, _, orc, ho, hx⟩ := hx; cases hx
     obtain ⟨ho1, _⟩ := sums_oracle_w self s.config.proto.ibcDenom env.contract out (oracle_msgs_shape ho)
     exact execFactsD_frame rfl rfl rfl rfl rfl ho1 rfl rfl rfl rfl
+      ⟨rfl, trSum_oracle _ _ env.contract out (oracle_msgs_shape ho)⟩
   case feeWithdraw a =>
     have hok' : s.config.feeCfg.treasury ≠ some self := hok
     simp only [execute] at hx
@@ -328,7 +392,7 @@ theorem execute_factsD {s s' : CState} {env : Env} {info : Info} {m : ExecMsg} {
     simp only [bind_ok, pure_ok, ensure_ok, loadSome_ok] at hx
     obtain ⟨_, _, _, hle, t, ht, hx⟩ := hx; cases hx
     have hts : ¬ t = self := fun e => hok' (by rw [ht, e])
-    refine ⟨rfl, rfl, ?_, by simp [locC, recDelta]⟩
+    refine ⟨rfl, rfl, ?_, by simp [locC, recDelta], by simp [NatSpec, setAsideDelta, sweptDelta, fwdDelta, trSum, trEff, plain]⟩
     have hle' : a ≤ s.st.totalFees := by simpa using hle
     simp only [owedD, recvSum, refundableSum, balSum, balEff, plain, coinSum, hts, ↓reduceIte, consumedD, sweptDelta, paidDelta]
     omega
